@@ -13,14 +13,17 @@
 package livesrv
 
 import (
+	"bytes"
 	"context"
 	"encoding/json"
 	"fmt"
 	"os"
+	"runtime"
 	"sync"
 	"time"
 
 	"github.com/coreos/go-semver/semver"
+	"github.com/pingcap/kvproto/pkg/metapb"
 	"github.com/pingcap/kvproto/pkg/pdpb"
 	"github.com/tikv/pd/pkg/tsoutil"
 	"github.com/tikv/pd/server"
@@ -42,7 +45,7 @@ type Fixture struct {
 
 	// base state (JSON) of every configuration section, captured after bootstrap
 	baseSchedule, baseReplication, basePDServer, baseReplMode, baseLabel []byte
-	baseVersion                                                         semver.Version
+	baseVersion                                                          semver.Version
 	// StartupS is how long start-up took (reported once).
 	StartupS float64
 }
@@ -65,6 +68,13 @@ func Get() (*Fixture, error) {
 	var last error
 	for i := 0; i < startAttempts; i++ {
 		f, err := start()
+		if err == nil && os.Getenv("VERIF_LIVESRV_FAIL") != "" {
+			// self-test of the failure path: pretend the start-up failed (must end as "inconclusive")
+			f.Svr.SetStorage(f.orig)
+			f.cluster.Destroy()
+			f.cancel()
+			f, err = nil, fmt.Errorf("forced by VERIF_LIVESRV_FAIL")
+		}
 		if err == nil {
 			f.StartupS = time.Since(t0).Seconds()
 			cur = f
@@ -89,6 +99,10 @@ func MustGet() *Fixture {
 
 // Fatal ends the process because the fixture (not the property) is broken.
 func Fatal(msg string) {
+	if f := cur; f != nil {
+		// best effort: do not leave the data directory behind (no locking: we are about to exit)
+		os.RemoveAll(f.Svr.GetConfig().DataDir)
+	}
 	fmt.Printf("VERIF-FIXTURE-FAILURE (inconclusive, not a violation): %s\n", msg)
 	os.Exit(3)
 }
@@ -148,6 +162,22 @@ func start() (f *Fixture, err error) {
 		}
 		time.Sleep(20 * time.Millisecond)
 	}
+	// The coordinator starts its schedulers only once the cluster is "prepared" (enough regions have reported a
+	// leader) or after 5 minutes, and when it does it writes a clone of the schedule configuration back into the
+	// persist options. That one-shot background write must not land in the middle of a case (seen in a thorough
+	// run: 7 of 16 shards reported phantom changes of the schedule section at the 5-minute mark). Report the
+	// bootstrap region with a leader, then wait until coordinator.run has returned.
+	peer := &metapb.Peer{Id: 3, StoreId: 1, Role: metapb.PeerRole_Voter}
+	if err = cl.HandleRegionHeartbeat(core.NewRegionInfo(&metapb.Region{Id: 2, Peers: []*metapb.Peer{peer}}, peer)); err != nil {
+		return nil, fmt.Errorf("region heartbeat: %v", err)
+	}
+	deadline = time.Now().Add(30 * time.Second)
+	for coordinatorStarting() || len(svr.GetRaftCluster().GetSchedulers()) == 0 {
+		if time.Now().After(deadline) {
+			return nil, fmt.Errorf("coordinator did not start its schedulers within 30s")
+		}
+		time.Sleep(50 * time.Millisecond)
+	}
 	rm := svr.GetRaftCluster().GetRuleManager()
 	if !rm.IsInitialized() {
 		// placement rules are on by default; make the precondition explicit
@@ -162,6 +192,14 @@ func start() (f *Fixture, err error) {
 	f.baseLabel, _ = json.Marshal(svr.GetLabelProperty())
 	f.baseVersion = svr.GetClusterVersion()
 	return f, nil
+}
+
+// coordinatorStarting reports whether some goroutine is still inside cluster.(*coordinator).run,
+// i.e. the scheduler start-up (which ends with a write of the schedule configuration) is not over.
+func coordinatorStarting() bool {
+	buf := make([]byte, 8<<20)
+	n := runtime.Stack(buf, true)
+	return bytes.Contains(buf[:n], []byte("cluster.(*coordinator).run("))
 }
 
 // Shutdown stops the server and removes its data directory. Safe to call twice.
